@@ -41,5 +41,5 @@ def run(ctx):
         "targets, failing requests, oversized writes, disks small enough to run out of space; directed: REMOVE / RENAME-over of a file whose truncation is still running in the background; "
         "crash workload of the free mix; quiescent images of sequential and concurrent histories",
         ["as C04 for the image; free counts are read from the allocators after waiting for the shrinker threads"],
-        pending=["owned-set form of truncation_releases_visited for the blocks inside index blocks (the theorem covers the inode's own pointers)"],
+        pending=["the directory layer (AddName / RemName on directory blocks) on the tree view of M7"],
         partial=["for all histories / crash points / schedules: sampled, not proved"])
